@@ -74,7 +74,7 @@ impl IndicatorConfig for MoneyFlowIndex {
 	}
 
 	fn validate(&self) -> bool {
-		self.zone >= 0. && self.zone <= 0.5
+		self.zone >= 0. && self.zone <= 0.5 && self.period > 0 && self.period < PeriodType::MAX
 	}
 
 	fn set(&mut self, name: &str, value: String) -> Result<(), Error> {
